@@ -76,7 +76,8 @@ def entails(t):
     if k in cache and cache[k][2] == len(facts):
         return False
     sol = z3.Solver()
-    sol.set("timeout", 300)
+    sol.set("rlimit", 1500000)   # deterministic resource limit (a wall-clock limit made this answer depend on machine load)
+    sol.set("timeout", 600000)
     sol.add(*facts)
     sol.add(z3.Not(t))
     r = sol.check() == z3.unsat
